@@ -16,6 +16,9 @@ import numpy
 from .. import compat  # noqa: F401
 from ..core import viol
 from .. import matmodel as mm
+from pybrops.breed.prot.gt.DenseUnphasedGenotyping import DenseUnphasedGenotyping
+from pybrops.breed.prot.gt.DenseMaskedPhasedGenotyping import DenseMaskedPhasedGenotyping
+from pybrops.breed.prot.gt.DenseMaskedUnphasedGenotyping import DenseMaskedUnphasedGenotyping
 from ..snapshot import snap, diff
 
 PROP = "C03"
@@ -69,9 +72,13 @@ def generate(R, tier):
             op = R.choice(["select", "delete", "reorder", "lexsort", "sort", "group", "ungroup", "is_grouped"])
         else:
             op = R.choice(OPS_ALL)
-        steps.append({"op": op, "axis": a, "argform": R.choice(["int", "negint", "slice", "list", "ndarray", "mask", "empty"]),
+        steps.append({"op": op, "axis": a, "argform": R.choice(["int", "negint", "npint", "slice", "list", "ndarray", "mask", "empty"]), "unnamed": R.random() < 0.15,
                       "a": [R.randrange(1000) for _ in range(6)], "k": R.choice([1, 1, 2, 3]), "pick": R.randrange(4),
                       "negaxis": R.random() < 0.25, "first": R.random() < 0.7})
+    if key == "DensePhasedGenotypeMatrix":
+        for _ in range(R.choice([0, 1, 1, 2])):
+            steps.insert(R.randint(0, len(steps)), {"op": "genotype", "axis": "vrnt", "prot": R.choice(["unphased", "masked_phased", "masked_phased_inv", "masked_unphased", "masked_unphased_inv"]),
+                                                    "argform": "-", "a": [0] * 6, "k": 1, "pick": 0, "negaxis": False, "first": True})
     return {"key": key, "cfg": {"present": present, "unique_names": unique}, "sizes": sizes, "grouped0": R.random() < 0.4,
             "lseed": R.randrange(1 << 30), "steps": steps}
 
@@ -148,6 +155,8 @@ def _index_spec(st, n, op):
         return ("list", [])
     if af == "int":
         return ("int", a[0] % n)
+    if af == "npint":
+        return ("npint", a[0] % n)
     if af == "negint":
         return ("int", -(a[0] % n) - 1)
     if af == "slice":
@@ -212,7 +221,7 @@ def execute(sc):
 
     def verify(o, where, ix, expect_ids=None, sorted_axis=None):
         """Full observation of object ``o`` against the model; appends violations."""
-        C = "%s.%s" % (key, where)
+        C = where if "." in where else "%s.%s" % (key, where)
         ids, probs = mm.decode(key, o, model)
         if ids is None:
             V.append(viol("data-follows-entity", C, "undecodable", "step %d: %s" % (ix, probs[0]), step=ix))
@@ -259,6 +268,16 @@ def execute(sc):
         op, axis = st["op"], st["axis"]
         if axis not in model.ids:
             continue
+        if op == "genotype":
+            res = _genotype_step(key, st, ix, cur, model, kind, V, kinds, faults, verify)
+            if res is None or res == "stop":
+                break
+            cur, newids = res
+            accepted += 1
+            for a, l in newids.items():
+                model.ids[a] = l
+            log.append(["genotype", ix, st["prot"], [len(model.ids[a]) for a in sorted(model.ids)]])
+            continue
         n = len(model.ids[axis])
         maxes = mm.mat_axes(key, axis)
         axi = maxes[0] - (cur.mat.ndim if st["negaxis"] else 0)
@@ -273,7 +292,7 @@ def execute(sc):
         forms = []
         if op == "select":
             spec = _index_spec(st, n, "select")
-            if spec[0] in ("int", "slice", "mask"):
+            if spec[0] in ("int", "npint", "slice", "mask"):
                 spec = ("list", sorted(mm.norm_delete(n, spec) or []))       # select takes index arrays
             arg = mm.real_index(spec)
             expect[axis] = [model.ids[axis][i] for i in spec[1]]
@@ -306,12 +325,23 @@ def execute(sc):
             except Exception:
                 continue
             operands = [operand]
+            opnd = operand
+            if (st.get("unnamed") and axis == "taxa" and kind == "float" and op in ("insert", "adjoin") and not mm.is_square(key)
+                    and sc["cfg"]["present"].get("taxa", True)):
+                # values handed over as a bare array without taxon names: the new entities are nameless (None)
+                class _Bare:
+                    pass
+                grpkw = {"taxa_grp": operand.taxa_grp} if sc["cfg"]["present"].get("taxa_grp", True) else {}
+                opnd = ("bare", numpy.array(operand.mat), grpkw)
+                for e in new:
+                    model.ent[(axis, e)]["taxa"] = None
+                fault("operand_without_names")
             if op == "insert":
-                if st["argform"] in ("int", "negint", "slice", "mask", "empty") or k == 1 and st["a"][3] % 2:
+                if st["argform"] in ("int", "negint", "npint", "slice", "mask", "empty") or k == 1 and st["a"][3] % 2:
                     pos = st["a"][0] % (n + 1)
                     if st["argform"] == "negint" and n > 0:
                         pos = -(st["a"][0] % n) - 1
-                    arg = int(pos)
+                    arg = numpy.int64(pos) if st["argform"] == "npint" else int(pos)
                     p = pos if pos >= 0 else n + pos
                     expect[axis] = model.ids[axis][:p] + new + model.ids[axis][p:]
                     spec = ("int", pos)
@@ -329,16 +359,18 @@ def execute(sc):
                             out.append(model.ids[axis][i])
                     expect[axis] = out
                     spec = ("list", poss)
-                forms = [("spec", False, lambda x: getattr(x, "insert_" + axis)(arg, operand)),
-                         ("gen", False, lambda x: x.insert(arg, operand, axis=axi)),
-                         ("spec-mut", True, lambda x: getattr(x, "incorp_" + axis)(arg, operand)),
-                         ("gen-mut", True, lambda x: x.incorp(arg, operand, axis=axi))]
+                ov, okw = (opnd[1], opnd[2]) if isinstance(opnd, tuple) else (operand, {})
+                forms = [("spec", False, lambda x: getattr(x, "insert_" + axis)(arg, ov, **okw)),
+                         ("gen", False, lambda x: x.insert(arg, ov, axis=axi, **okw)),
+                         ("spec-mut", True, lambda x: getattr(x, "incorp_" + axis)(arg, ov, **okw)),
+                         ("gen-mut", True, lambda x: x.incorp(arg, ov, axis=axi, **okw))]
             elif op == "adjoin":
                 expect[axis] = model.ids[axis] + new
-                forms = [("spec", False, lambda x: getattr(x, "adjoin_" + axis)(operand)),
-                         ("gen", False, lambda x: x.adjoin(operand, axis=axi)),
-                         ("spec-mut", True, lambda x: getattr(x, "append_" + axis)(operand)),
-                         ("gen-mut", True, lambda x: x.append(operand, axis=axi))]
+                ov, okw = (opnd[1], opnd[2]) if isinstance(opnd, tuple) else (operand, {})
+                forms = [("spec", False, lambda x: getattr(x, "adjoin_" + axis)(ov, **okw)),
+                         ("gen", False, lambda x: x.adjoin(ov, axis=axi, **okw)),
+                         ("spec-mut", True, lambda x: getattr(x, "append_" + axis)(ov, **okw)),
+                         ("gen-mut", True, lambda x: x.append(ov, axis=axi, **okw))]
             else:
                 new2 = model.fresh(R, axis, 1)
                 try:
@@ -492,6 +524,68 @@ def execute(sc):
             V[-1] = viol("bv-trait-axis", "%s.*_trait" % key, "location-scale-not-carried",
                          v["message"] + " [%s]" % v["signature"], step=st)
     return _out(sc, V, log, kinds, faults, probes, accepted)
+
+
+def _genotype_step(key, st, ix, cur, model, kind, V, kinds, faults, verify):
+    """Genotyping protocols produce a new matrix from a phased genotype matrix: same taxa, the unmasked variants."""
+    prot = st["prot"]
+    inv = prot.endswith("_inv")
+    if prot == "unphased":
+        gp, unph = DenseUnphasedGenotyping(), True
+    elif prot.startswith("masked_phased"):
+        gp, unph = DenseMaskedPhasedGenotyping(invert=inv), False
+    else:
+        gp, unph = DenseMaskedUnphasedGenotyping(invert=inv), True
+    C = "%s.genotype" % type(gp).__name__
+    kinds.append("genotype:%s" % prot)
+    before = _state(cur, kind)
+    try:
+        out = gp.genotype(cur)
+    except Exception as e:
+        V.append(viol("genotyping-completes", C, "raises:%s" % type(e).__name__, "step %d: %s: %s" % (ix, type(e).__name__, e), step=ix))
+        return None
+    if _state(cur, kind) != before:
+        V.append(viol("operands-unchanged", C, "pgmat", "step %d: genotyping modified the phased matrix" % ix, step=ix))
+        return None
+    vids = list(model.ids["vrnt"])
+    if prot != "unphased" and model.cfg["present"].get("vrnt_mask", True):
+        keep = [bool(model.ent[("vrnt", i)]["vrnt_mask"]) != inv for i in vids]
+        vids = [i for i, k in zip(vids, keep) if k]
+        faults["variants_masked_out"] = faults.get("variants_masked_out", 0) + 1
+        if not vids:
+            faults["all_variants_masked_out"] = faults.get("all_variants_masked_out", 0) + 1
+    expect = {"taxa": list(model.ids["taxa"]), "vrnt": vids}
+    if not unph:
+        expect["phase"] = list(model.ids["phase"])
+        got = verify(out, C, ix, expect)
+        if got is None or got == "stop":
+            return got
+        return out, got
+    # unphased result: a DenseGenotypeMatrix whose cells are the phase sums of the entities' cells
+    C2 = C
+    exp = mm.payload(key, [model.ids["phase"], expect["taxa"], vids]).sum(0).astype("int8")
+    if out.mat.shape != exp.shape or not numpy.array_equal(out.mat, exp):
+        V.append(viol("data-follows-entity", C2, "cells", "step %d: genotype calls are not the allele sums of the taxa/variants they are labelled with" % ix, step=ix))
+        return None
+    ids = {"taxa": expect["taxa"], "vrnt": vids}
+    try:
+        tn = [int(str(x)[1:]) for x in out.taxa.tolist()]
+        vn = [int(str(x)[1:]) for x in out.vrnt_name.tolist()]
+    except Exception:
+        V.append(viol("labels-follow-entity", C2, "label=taxa", "step %d: names missing or foreign on the genotyped matrix" % ix, step=ix))
+        return None
+    if tn != ids["taxa"] or vn != ids["vrnt"]:
+        V.append(viol("entities-in-order", C2, "axis=%s" % ("taxa" if tn != ids["taxa"] else "vrnt"), "step %d: genotyped matrix lists entities %s / %s, expected %s / %s" % (ix, tn, vn, ids["taxa"], ids["vrnt"]), step=ix))
+        return None
+    lp = mm.check_labels("DenseGenotypeMatrix", out, model, ids)
+    if lp:
+        V.append(viol("labels-follow-entity", C2, "label=%s" % lp[0][0], "step %d: %s" % (ix, lp[0][1]), step=ix))
+        return None
+    gp_ = mm.check_groups("DenseGenotypeMatrix", out)
+    if gp_:
+        V.append(viol("group-metadata-true", C2, "axis=%s" % gp_[0][0], "step %d: %s" % (ix, gp_[0][1]), step=ix))
+        return None
+    return "stop"
 
 
 def _out(sc, V, log, kinds, faults, probes, accepted):
